@@ -83,6 +83,13 @@ let lit_table_of_sexp = function
 
 let opt_n = function A "none" -> None | x -> Some (n_of_int (int_atom x))
 
+let segs_of_sexp = function
+  | L items -> List.map (function
+      | L [A "K"; k; o] -> SKey (str_atom k, opt_n o)
+      | L [A "I"; z] -> SIdx (z_atom z)
+      | y -> failwith ("bad seg " ^ to_string y)) items
+  | x -> failwith ("bad segs " ^ to_string x)
+
 let sfinal_sexp = function
   | SDone (d, _) -> L [A "done"; canon_doc d]
   | SFailed ((d, _), e) -> L [A "failed"; family e; canon_doc d]
@@ -99,4 +106,12 @@ let handle (cmd : string) (args : t list) : t option =
     let d = node_of_sexp d in
     Some (sfinal_sexp (set_value (lit_of_table (lit_table_of_sexp lt)) (fl_of_table ft)
                          (coords_of_sexp cs) (pyval_of_sexp v) (fmt_of_sym f) (opt_n vo) (init_state d)))
+  | "create-set", [d; sg; v; f; vo; lt; ft] ->
+    Some (sfinal_sexp (create_set (lit_of_table (lit_table_of_sexp lt)) (fl_of_table ft)
+                         (segs_of_sexp sg) (pyval_of_sexp v) (fmt_of_sym f) (opt_n vo) (node_of_sexp d)))
+  | "create-query", [d; sg; v; vo; lt] ->
+    let d = node_of_sexp d in
+    Some (match create_query (lit_of_table (lit_table_of_sexp lt)) (segs_of_sexp sg) (pyval_of_sexp v) (opt_n vo) d with
+        | ROk ((d', _), _) -> L [A "done"; canon_doc d']
+        | RErr e -> L [A "failed"; family e; canon_doc d])
   | _ -> None
